@@ -5,12 +5,12 @@ package main
 
 import (
 	"berty.tech/go-orbit-db/events"
-	"sync/atomic"
 	"context"
 	"fmt"
 	"runtime"
 	"sort"
 	"strings"
+	"sync/atomic"
 	"time"
 
 	ipfslog "berty.tech/go-ipfs-log"
@@ -246,6 +246,11 @@ func (w *World) execCloseOp(ctx context.Context, toks []string) (bool, error) {
 	case "dropstore":
 		p := atoi(toks[1])
 		s := w.stores[p]
+		// `closed`: the handle is closed first (the usual order of a clean-up): dropping it afterwards
+		// must still remove the local data
+		if len(toks) > 2 && toks[2] == "closed" {
+			_ = s.Close()
+		}
 		r := timed(2*time.Second, s.Drop)
 		w.net.closeTopic(p, w.dbAddr)
 		delete(w.stores, p)
